@@ -452,6 +452,104 @@ func C13(tier string) int {
 		})
 	}
 
+	// ---- container overwrites: a map/list written over an earlier one reads back as the NEW value
+	// (nothing of the old one survives), first write committed before or earlier in the same transaction
+	owMaps := []map[string]interface{}{{}, {"x": "a"}, {"x": int64(7)}, {"x": map[string]interface{}{"k1": "a"}}, {"x": []interface{}{"a"}}, {"x": nil},
+		{"x": "a", "y": true}, {"y": []interface{}{"a", int64(7)}}, {"x": map[string]interface{}{"k1": "a", "k2": ""}}, {"x": map[string]interface{}{"k2": map[string]interface{}{"k1": tv}}}}
+	owLists := [][]interface{}{{}, {"a"}, {int64(7), "a"}, {map[string]interface{}{"k": "a"}}, {[]interface{}{"a"}}, {"a", "b", "c"}}
+	overwrite := func(kind, what string, first, second func(b *boltz.TypedBucket), read func(b *boltz.TypedBucket) string) {
+		for _, sameTx := range []bool{false, true} {
+			rep.Count("evaluations", 1)
+			rep.Outcome(kind)
+			var problem string
+			err := d.db.Update(nil, func(ctx boltz.MutateContext) error {
+				b, err := boltz.GetOrCreatePath(ctx.Tx(), "root").EmptyBucket("c13")
+				if err != nil {
+					return err
+				}
+				first(b)
+				if sameTx {
+					second(b)
+				}
+				return b.GetError()
+			})
+			if err == nil && !sameTx {
+				err = d.db.Update(nil, func(ctx boltz.MutateContext) error {
+					b := boltz.Path(ctx.Tx(), "root", "c13")
+					second(b)
+					return b.GetError()
+				})
+			}
+			if err == nil {
+				err = d.db.View(func(tx *bbolt.Tx) error { problem = read(boltz.Path(tx, "root", "c13")); return nil })
+			}
+			w := fmt.Sprintf("%s sameTx=%v", what, sameTx)
+			if err != nil {
+				fail(kind, w, "failed: "+err.Error())
+			} else if problem != "" {
+				fail(kind, w, w+": "+problem)
+			}
+		}
+	}
+	for _, m1 := range owMaps {
+		for _, m2 := range owMaps {
+			m1, m2 := m1, m2
+			overwrite("map-overwrite", descVal(m1)+" then "+descVal(m2),
+				func(b *boltz.TypedBucket) { b.PutMap("m", m1, nil, true) }, func(b *boltz.TypedBucket) { b.PutMap("m", m2, nil, true) },
+				func(b *boltz.TypedBucket) string {
+					if g := b.GetMap("m"); !eqVal(m2, g) {
+						return fmt.Sprintf("read back as %s", descVal(g))
+					}
+					return ""
+				})
+		}
+	}
+	for _, l1 := range owLists {
+		for _, l2 := range owLists {
+			l1, l2 := l1, l2
+			overwrite("list-overwrite", descVal(l1)+" then "+descVal(l2),
+				func(b *boltz.TypedBucket) { b.PutList("l", l1, nil) }, func(b *boltz.TypedBucket) { b.PutList("l", l2, nil) },
+				func(b *boltz.TypedBucket) string {
+					if g := b.GetList("l"); !eqVal(l2, g) {
+						return fmt.Sprintf("read back as %s", descVal(g))
+					}
+					return ""
+				})
+		}
+	}
+	// a scalar written over a scalar of another type (and over null) reads back as the new value and type
+	type sc struct {
+		name string
+		set  func(b *boltz.TypedBucket)
+		get  func(b *boltz.TypedBucket) string
+	}
+	str := "v"
+	scalars := []sc{
+		{"string", func(b *boltz.TypedBucket) { b.SetString("f", "v", nil) }, func(b *boltz.TypedBucket) string { return fmt.Sprintf("%v|%v|%v|%v", derefS(b.GetString("f")), b.GetInt64("f") == nil, b.GetBool("f") == nil, b.GetTime("f") == nil) }},
+		{"null", func(b *boltz.TypedBucket) { b.SetStringP("f", nil, nil) }, func(b *boltz.TypedBucket) string { return fmt.Sprintf("%v|%v|%v|%v", b.GetString("f") == nil, b.GetInt64("f") == nil, b.GetBool("f") == nil, b.GetTime("f") == nil) }},
+		{"int64", func(b *boltz.TypedBucket) { b.SetInt64("f", 7, nil) }, func(b *boltz.TypedBucket) string { g := b.GetInt64("f"); return fmt.Sprintf("%v|%v", g != nil && *g == 7, b.GetString("f") == nil) }},
+		{"bool", func(b *boltz.TypedBucket) { b.SetBool("f", true, nil) }, func(b *boltz.TypedBucket) string { g := b.GetBool("f"); return fmt.Sprintf("%v|%v", g != nil && *g, b.GetInt64("f") == nil) }},
+		{"time", func(b *boltz.TypedBucket) { b.SetTime("f", tv, nil) }, func(b *boltz.TypedBucket) string { g := b.GetTime("f"); return fmt.Sprintf("%v|%v", g != nil && g.Equal(tv), b.GetString("f") == nil) }},
+		{"float64", func(b *boltz.TypedBucket) { b.SetFloat64("f", 2.5, nil) }, func(b *boltz.TypedBucket) string { g := b.GetFloat64("f"); return fmt.Sprintf("%v|%v", g != nil && *g == 2.5, b.GetBool("f") == nil) }},
+	}
+	_ = str
+	alone := map[string]string{}
+	for _, x := range scalars {
+		x := x
+		_ = d.roundTrip(x.set, func(b *boltz.TypedBucket) { alone[x.name] = x.get(b) })
+	}
+	for _, x := range scalars {
+		for _, y := range scalars {
+			x, y := x, y
+			overwrite("scalar-type-overwrite", x.name+" then "+y.name, x.set, y.set, func(b *boltz.TypedBucket) string {
+				if g := y.get(b); g != alone[y.name] {
+					return fmt.Sprintf("getters answer %q, after a single write of the %s they answer %q", g, y.name, alone[y.name])
+				}
+				return ""
+			})
+		}
+	}
+
 	// ---- field checkers: a restricted write touches only the selected fields
 	fields := []string{"s", "i", "t", "l"}
 	for mask := 0; mask < 16; mask++ {
